@@ -241,6 +241,8 @@ func (fc *FnCtx) evalExpr(e *Expr, env *Env) Val {
 				sort = sSlice
 			case "iface":
 				sort = sIface
+			case "arr":
+				sort = arrSort(sInt)
 			}
 			nm := qsym("q." + q.Name)
 			inner.bound[q.Name] = Val{T: nm, Sort: sort, Math: sort == sInt}
@@ -388,6 +390,9 @@ func (fc *FnCtx) evalIndex(e *Expr, env *Env) Val {
 	idx := fc.evalExpr(e.Args[1], env)
 	if base.IsStr {
 		return mathInt(sx("sbyte", base.T, idx.T))
+	}
+	if base.Sort == arrSort(sInt) {
+		return mathInt(sel(base.T, idx.T))
 	}
 	if base.Typ == nil {
 		if base.Sort == sSlice {
@@ -686,6 +691,26 @@ func (fc *FnCtx) evalCall(e *Expr, env *Env) Val {
 		hi := add(sx("s-off", a[0].T), a[2].T)
 		return boolVal(fmt.Sprintf("(forall ((%s Int) (%s Int)) (! (=> (not (and (= %s (s-obj %s)) (<= %s %s) (< %s %s))) (= (select (select %s %s) %s) (select (select %s %s) %s))) :pattern ((select (select %s %s) %s))))",
 			o, k, o, a[0].T, lo, k, k, hi, mem, o, k, mem0, o, k, mem, o, k))
+	case "elemsof":
+		// elemsof(s): the array of elements of the object underlying slice s (string ids / ints / bytes)
+		a := args()[0]
+		if a.Typ == nil {
+			panic(bindError{"elemsof: untyped slice"})
+		}
+		st, ok := a.Typ.Underlying().(*types.Slice)
+		if !ok || sortOf(st.Elem()) != sInt {
+			panic(bindError{"elemsof: slice of integer-like elements expected"})
+		}
+		mem := env.heap.get("E."+fc.eng.elemKey(st.Elem()), arr2Sort(sInt))
+		return Val{T: sel(mem, sx("s-obj", a.T)), Sort: arrSort(sInt)}
+	case "slenid":
+		return mathInt(sx("slen", args()[0].T))
+	case "deref":
+		a := args()[0]
+		if a.Typ == nil {
+			panic(bindError{"deref: untyped pointer"})
+		}
+		return fc.loadVal(env.heap, a, derefType(a.Typ))
 	case "ite":
 		c := fc.evalBool(e.Args[0], env)
 		a := fc.evalExpr(e.Args[1], env)
@@ -781,6 +806,8 @@ func (fc *FnCtx) evalCall(e *Expr, env *Env) Val {
 
 func smtSortName(s string) string {
 	switch strings.ToLower(s) {
+	case "arr":
+		return arrSort(sInt)
 	case "int":
 		return sInt
 	case "bool":
